@@ -511,40 +511,65 @@ func (c *Ctx) framingReadsWholePacket() {
 		c.R.Unresolved("service.getMessageBuffer")
 		return
 	}
-	loops := ir.Loops(fn)
-	n := 0
+	// the reads of the reader itself and of the helpers of its package it reads through
+	hosts := []*ssa.Function{fn}
 	for _, call := range ir.Calls(fn) {
-		cc := call.Common()
-		// io.ReadFull / io.ReadAtLeast read until the slice is filled (or fail): complete by contract
-		if f := cc.StaticCallee(); f != nil && f.Pkg != nil && f.Pkg.Pkg.Path() == "io" && (f.Name() == "ReadFull" || f.Name() == "ReadAtLeast") {
+		if h := call.Common().StaticCallee(); h != nil && h != fn && h.Pkg == fn.Pkg && h.Blocks != nil {
+			dup := false
+			for _, x := range hosts {
+				dup = dup || x == h
+			}
+			if !dup {
+				hosts = append(hosts, h)
+			}
+		}
+	}
+	n := 0
+	var mentionsPhi func(v ssa.Value, l *ir.Loop, d int) bool
+	mentionsPhi = func(v ssa.Value, l *ir.Loop, d int) bool {
+		switch x := v.(type) {
+		case *ssa.Phi:
+			return l.Blocks[x.Block()]
+		case *ssa.BinOp:
+			return d < 3 && (mentionsPhi(x.X, l, d+1) || mentionsPhi(x.Y, l, d+1))
+		case *ssa.UnOp:
+			return d < 3 && mentionsPhi(x.X, l, d+1)
+		case *ssa.Convert:
+			return d < 3 && mentionsPhi(x.X, l, d+1)
+		}
+		return false
+	}
+	for _, host := range hosts {
+		loops := ir.Loops(host)
+		for _, call := range ir.Calls(host) {
+			cc := call.Common()
+			// io.ReadFull / io.ReadAtLeast read until the slice is filled (or fail): complete by contract
+			if f := cc.StaticCallee(); f != nil && f.Pkg != nil && f.Pkg.Pkg.Path() == "io" && (f.Name() == "ReadFull" || f.Name() == "ReadAtLeast") {
+				n++
+				c.R.Ok(ruleP4, fmt.Sprintf("getMessageBuffer:read#%d-repeated-until-complete", n), c.P.InstrPos(call), "io."+f.Name()+" fills the whole slice or fails")
+				continue
+			}
+			if !cc.IsInvoke() || cc.Method.Name() != "Read" {
+				continue
+			}
 			n++
-			c.R.Ok(ruleP4, fmt.Sprintf("getMessageBuffer:read#%d-repeated-until-complete", n), c.P.InstrPos(call), "io."+f.Name()+" fills the whole slice or fails")
-			continue
-		}
-		if !cc.IsInvoke() || cc.Method.Name() != "Read" {
-			continue
-		}
-		n++
-		l := ir.InnermostLoop(loops, call.Block())
-		key := fmt.Sprintf("getMessageBuffer:read#%d-repeated-until-complete", n)
-		if l == nil {
-			c.R.Bad(ruleP4, key, c.P.InstrPos(call), "a read from the connection is not inside a loop: a packet that arrives in two segments is returned half filled (zero bytes where the rest belongs) - e.g. a CONNACK whose return-code byte arrives later is taken for code 0")
-			continue
-		}
-		// the loop's continuation test compares the accumulated count with the expected total
-		ok := false
-		for b := range l.Blocks {
-			if iff, isIf := b.Instrs[len(b.Instrs)-1].(*ssa.If); isIf {
-				if bo, isB := iff.Cond.(*ssa.BinOp); isB {
-					for _, s := range []ssa.Value{bo.X, bo.Y} {
-						if _, isPhi := s.(*ssa.Phi); isPhi {
-							ok = true
-						}
+			l := ir.InnermostLoop(loops, call.Block())
+			key := fmt.Sprintf("getMessageBuffer:read#%d-repeated-until-complete", n)
+			if l == nil {
+				c.R.Bad(ruleP4, key, c.P.InstrPos(call), "a read from the connection is not inside a loop: a packet that arrives in two segments is returned half filled (zero bytes where the rest belongs) - e.g. a CONNACK whose return-code byte arrives later is taken for code 0")
+				continue
+			}
+			// the loop's continuation test compares the accumulated count with the expected total
+			ok := false
+			for b := range l.Blocks {
+				if iff, isIf := b.Instrs[len(b.Instrs)-1].(*ssa.If); isIf {
+					if mentionsPhi(iff.Cond, l, 0) {
+						ok = true
 					}
 				}
 			}
+			c.R.Check(ok, ruleP4, key, c.P.InstrPos(call), "the read is repeated under a test on the accumulated byte count", "the loop around the read does not test the accumulated byte count")
 		}
-		c.R.Check(ok, ruleP4, key, c.P.InstrPos(call), "the read is repeated under a test on the accumulated byte count", "the loop around the read does not test the accumulated byte count")
 	}
 	c.R.Count("connection reads in the handshake framing reader", n)
 	c.R.Floor("connection reads in the handshake framing reader", n, 2)
